@@ -38,7 +38,8 @@ from core import Eval
 
 PROPERTY = "C11"
 DRIVER = "drv_c11"
-PROPS = ["PartituraModel.Props.C11", "PartituraModel.Props.C11Rests", "PartituraModel.Props.C11Bar", "PartituraModel.Props.C11Rows"]
+PROPS = ["PartituraModel.Props.C11", "PartituraModel.Props.C11Rests", "PartituraModel.Props.C11Bar", "PartituraModel.Props.C11Rows",
+         "PartituraModel.Props.C11Tuplets"]
 TRUSTED = [
     "np.searchsorted(side='left') on the sorted duration tables = number of entries < value",
     "binary64 evaluation of dur/div, eps/div and n*straight/qdur: for integer dur, div every comparison of the "
@@ -68,9 +69,14 @@ PARTIAL = [
     "duration_tied/end_tied, under distinct keys and ties that point at notes with a back link; the executable fuel-bounded "
     "`sounding` of the model is not related to Walk by a theorem (it is what the driver prints and the harness compares)",
     "tie_notes stage 2 (find_tie_split + split_note) and find_tuplets are unreachable in the current code because "
-    "estimate_symbolic_duration returns {} instead of None (theorems stage2_dead, tuplet_candidates_empty); split_note "
-    "is modelled, covered by tie_sound_same/split_sound, and compared through a Note subclass whose symbolic_duration "
-    "may be None (a plain Note always fails split_note's sanity assertion)",
+    "estimate_symbolic_duration returns {} instead of None (theorems stage2_dead, tuplet_candidates_empty, tuplets_dead). "
+    "Decision of round 2: not repaired - no input violates the property as the code stands, and the one-line repair "
+    "(`not symbolic_duration`) would make find_tuplets overwrite guessed tuplet ratios (theorem tuplet_relabels_guess: "
+    "10-division notes at 24 per quarter labelled quarter 3:2 = 16 divisions). Both are modelled in full "
+    "(split_note; find_tuplets steps 1-3 in Model/Tuplets.lean), proved not to change what sounds (tie_sound_same/"
+    "split_sound; tuplets_sound_same) and compared with the code through a Note subclass whose symbolic_duration may be "
+    "None (a plain Note never reaches them); the labels find_tuplets writes are right when it starts from a straight "
+    "value (tuplet_label_straight) and are not judged otherwise",
     "fill_rests (Model/Rests.lean, both modes): rests_sound_same(_global) and rest_symdur hold for all inputs of the model; "
     "rests_fill_gaps / rests_fill_staves are per measure, for integer times and quarter durations <= 2^40, and speak about "
     "objects that START in the measure, grouped by voice (as the code does; not by voice and staff); that a later measure's "
@@ -88,11 +94,13 @@ RULE = ("(a) estimator: every div 1..960 x every integer dur 1..8 div (thorough)
         "first signature, offset start, quarter-duration change, existing measures none/all/some/irregular "
         "(pickup, partial, split bars), notes with arbitrary integer onsets/durations (plain, dotted, tuplet, odd, "
         "multi-bar, across signature changes), chords, ties, slurs, rests, grace notes, odd ids, voices on one staff or "
-        "wandering between three staves; fill_rests measure-wise (70 %) or global. distinct = distinct "
-        "request text; non-trivial = estimator returned a value / a note was split / a measure was added")
+        "wandering between three staves; fill_rests measure-wise (70 %) or global; (d) find_tuplets on runs of 1-12 "
+        "equal-duration adjacent notes (triplet, quintuplet, septuplet, composite and odd durations, chords, gaps) of a "
+        "Note subclass without estimated symbolic duration. distinct = distinct "
+        "request text; non-trivial = estimator returned a value / a note was split / a measure was added / a tuplet was found")
 LEVEL_TEXT = ("Lean 4 theorems (all durations and divisions, all measure layouts and split lists, whole regenerated "
-              "tables by kernel decision) about executable models of the estimator, the split search, add_measures, "
-              "tie_notes and fill_rests; the models are tied to the code by an exhaustive differential sweep of the "
+              "tables by kernel decision) about executable models of the estimator, the split search, add_measures (also over "
+              "C02's concrete beat maps), tie_notes, find_tuplets and fill_rests; the models are tied to the code by an exhaustive differential sweep of the "
               "estimator over div 1..960 and a differential run over generated parts.")
 
 STEPS = "CDEFGAB"
@@ -198,6 +206,8 @@ def cases(rng, tier):
         d["k"] = "splitnote"
         d["which"] = rng.randint(0, 50)
         yield d
+    for i in range(1200 if thorough else 50):
+        yield gen_tuplet_part(rng)
     # (a) estimator
     if thorough:
         for div in range(1, 961):
@@ -346,6 +356,39 @@ def gen_part(rng):
             slurs.append([plain[a]["key"], plain[b]["key"]])
     return {"k": "part", "divs": divs, "qd": qd, "ts": ts, "meas": meas, "notes": notes, "slurs": slurs, "end": L,
             "mode": mode, "measurewise": rng.random() < 0.7}
+
+
+def gen_tuplet_part(rng):
+    """runs of equal-duration notes that start where the previous one ended (what find_tuplets looks for), read through a
+    Note subclass without estimated symbolic duration"""
+    d = gen_part(rng)
+    d["k"] = "tuplets"
+    q = d["divs"]
+    cands = sorted(set(x for x in [q // 3, 2 * q // 3, q // 6, q // 5, 2 * q // 5, q // 7, q // 12, 4 * q // 3, 5 * q // 12, 16 * q // 3,
+                                   q // 2, q, q // 4, 8 * q // 3, 10, 2, 1, 3, 6] if x >= 1))
+    notes, nid = [], 0
+    pos = d["ts"][0][0] if d["ts"] else 0
+    end = max(d["end"], pos + 1)
+    while pos < end and len(notes) < 36:
+        r = rng.choice([1, 2, 3, 3, 3, 4, 5, 5, 6, 7, 9, 10, 12])
+        dd = rng.choice(cands)
+        for _ in range(r):
+            if pos >= end or len(notes) >= 36:
+                break
+            notes.append({"id": "n%d" % nid, "key": nid, "t": pos, "dur": dd, "kind": "note", "step": rng.choice(STEPS), "alter": 0,
+                          "oct": 4, "voice": 1, "staff": 1})
+            nid += 1
+            if rng.random() < 0.04:   # a chord note: starts where its neighbour starts, not where it ends
+                notes.append({"id": "n%d" % nid, "key": nid, "t": pos, "dur": dd, "kind": "note", "step": rng.choice(STEPS), "alter": 0,
+                              "oct": 5, "voice": 1, "staff": 1})
+                nid += 1
+            pos += dd
+        if rng.random() < 0.3:
+            pos += rng.randint(1, max(1, q))
+    d["notes"] = notes
+    d["slurs"] = []
+    d["end"] = max(d["end"], pos)
+    return d
 
 
 # ---------------------------------------------------------------------------------------------- building / observing parts
@@ -930,6 +973,47 @@ def eval_splitnote(d, ev):
     return len(splits) >= 1
 
 
+def eval_tuplets(d, ev):
+    """steps 2-3 of find_tuplets, reached through a Note subclass that may have no symbolic duration (for the notes of
+    the library step 1 finds no candidate: the `tupc` observation of eval_part)"""
+    import partitura.score as S
+    import partitura.utils.music as M
+
+    d = json.loads(json.dumps(d))
+    cls = loose_note_class()
+    part, slurs = build(d, note_cls=cls)
+    if part.first_point is None:
+        return False
+    _, exc = call(S.add_measures, part)
+    if exc is not None:
+        return False
+    snd0 = sounding_cls(part, cls)
+    nreq, ns = notes_req(part, {}, cls)
+    ev.requests.append("tupl %s %s" % (header(part), nreq))
+    _, exc = call(S.find_tuplets, part)
+    if exc is not None:
+        ev.impl.append("err:" + type(exc).__name__)
+        ev.oracle.append("find_tuplets/raises: %r" % (exc,))
+        return False
+    tups = list(part.iter_all(S.Tuplet))
+    ev.impl.append(W.f_tuple(W.f_list(lambda n: "N" if n._sym_dur is None else fmt_est(n._sym_dur), ns),
+                             W.f_list(lambda t: W.f_tuple(ref(t.start_note), ref(t.end_note)), tups)))
+    snd = sounding_cls(part, cls)
+    if snd != snd0:
+        ev.oracle.append("find_tuplets/note-array: changed from %s to %s" % (snd0, snd))
+    wrong = 0
+    for n in ns:
+        sd = n._sym_dur
+        if sd:
+            x = numeric_exact(sd)
+            if x is None or x * n.start.quarter != n.end.t - n.start.t:
+                wrong += 1
+    # (labels that do not last as long as their note are possible on this hypothetical class - Props/C11Tuplets.lean
+    #  `tuplet_relabels_guess` - and are counted, not judged: the library's own notes never reach this code)
+    ev.info = {"tuplets": len(tups), "tuplet_labels_wrong": wrong}
+    return len(tups) > 0
+
+
 def sounding_cls(part, cls):
     import partitura.score as S
 
@@ -973,6 +1057,8 @@ def evaluate(d):
         nontrivial = eval_part(d, ev)
     elif k == "splitnote":
         nontrivial = eval_splitnote(d, ev)
+    elif k == "tuplets":
+        nontrivial = eval_tuplets(d, ev)
     ev.key = ("|".join(ev.requests)[:2000] or repr(d)) if nontrivial else None
     return ev
 
@@ -988,7 +1074,7 @@ def shrink(d):
     if d.get("k") == "estr":
         for x in range(d["lo"], d["hi"]):
             yield {"k": "estl", "div": d["div"], "com": False, "durs": [x]}
-    if d.get("k") in ("part", "splitnote"):
+    if d.get("k") in ("part", "splitnote", "tuplets"):
         ns = d["notes"]
         for i in range(len(ns)):
             key = ns[i].get("key")
@@ -996,6 +1082,9 @@ def shrink(d):
             for n in rest:
                 if key is not None and n.get("tie") == key:
                     n.pop("tie", None)
+            # stay inside the generated domain: a grace note keeps a main note (sanitize_part removes orphans by design)
+            rest = [n for n in rest if n["kind"] != "grace" or any(
+                m["kind"] == "note" and m["t"] == n["t"] and m.get("voice") == n.get("voice") for m in rest)]
             yield dict(d, notes=rest, slurs=[s for s in d["slurs"] if key not in s])
         for i in range(len(d["meas"])):
             yield dict(d, meas=d["meas"][:i] + d["meas"][i + 1:])
@@ -1024,6 +1113,8 @@ def distribution(descs, results):
         "notes_created_by_tie_notes": sum((r.get("info") or {}).get("split", 0) for _, r in parts),
         "fill_rests_raised": dict(Counter(str((r.get("info") or {}).get("fill_rests_raised")) for _, r in parts)),
         "rests_added": sum((r.get("info") or {}).get("rests_added", 0) for _, r in parts),
+        "tuplets_found_through_subclass": sum((r.get("info") or {}).get("tuplets", 0) for r in results),
+        "tuplet_labels_not_lasting_their_note": sum((r.get("info") or {}).get("tuplet_labels_wrong", 0) for r in results),
         "fill_mode": dict(Counter(str((r.get("info") or {}).get("fill_mode")) for _, r in parts)),
         "rests_with_non_integral_time": sum((r.get("info") or {}).get("composite_rests", 0) for _, r in parts),
     }
